@@ -183,14 +183,14 @@ def prove_all(obligations, timeout_s=20, second_solver=False, jobs=8):
         if smt2 is not None:
             slow.append((i, smt2))
         elif second_solver and v.status == 'proved':
-            slow.append((i, None))
+            # cross-check with the second back end; the SMT-LIB text is produced HERE (z3's API is not thread-safe)
+            slow.append((i, ('cross', smt2_of(ob.pc, ob.goal))))
     if slow:
         def work(item):
             i, smt2 = item
             v = verdicts[i]
-            if smt2 is None:
-                ob = obligations[i]
-                c = run_cvc5(smt2_of(ob.pc, ob.goal), timeout_s)
+            if isinstance(smt2, tuple):
+                c = run_cvc5(smt2[1], timeout_s)
                 if c == 'sat':
                     v.status, v.reason = 'undecided', 'z3 unsat but cvc5 sat (solver disagreement)'
                 elif c == 'unsat':
